@@ -701,6 +701,10 @@ impl<'a> Gen<'a> {
                 }
                 self.say(a, &format!("NICK {}", x));
                 self.register(b, &x, &format!("u{}", b));
+                if self.r.chance(1, 5) {
+                    // the loser's peer is already gone for writing: its refusal cannot be delivered
+                    self.emit(vec![Action::BreakWrites { c: a }]);
+                }
                 let n = self.r.range(2, 5);
                 for _ in 0..n {
                     if !self.m.conns[a].alive || self.m.conns[a].registered {
@@ -736,6 +740,9 @@ impl<'a> Gen<'a> {
                     un[self.r.below(un.len())]
                 };
                 let cfgpass = self.m.cfg.password.clone();
+                if self.r.chance(1, 25) {
+                    self.emit(vec![Action::BreakWrites { c }]);
+                }
                 let line = match self.r.below(10) {
                     0..=3 => format!("NICK {}", self.pick_nick_pool()),
                     4..=6 => {
